@@ -2,9 +2,9 @@ from contracts.workspace_io import IoCall, Geoh5Getter, CloseContract, ExitContr
 from contracts.workspace_io import CloseFlushes, FetchChildrenClosed
 from contracts.removal import ConcatAttributesPending
 from contracts.tree import OpenMode, OpenOnOpenWorkspace, OpenResetsRegistries
-from contracts.sessions import CloseHistories
+from contracts.sessions import CloseHistories, SaveAsNative
 from contracts.reader import FetchAttributes, FetchTypeAttributesStub, FetchPropertyGroupsStub
-CONTRACTS = [IoCall, Geoh5Getter, CloseContract, CloseFlushes, ExitContract, FetchActiveWorkspace, OpenOnOpenWorkspace, OpenResetsRegistries, OpenMode, FetchChildrenClosed, ConcatAttributesPending, FetchTypeAttributesStub, FetchPropertyGroupsStub, FetchAttributes, CloseHistories]
+CONTRACTS = [IoCall, Geoh5Getter, CloseContract, CloseFlushes, ExitContract, FetchActiveWorkspace, OpenOnOpenWorkspace, OpenResetsRegistries, OpenMode, FetchChildrenClosed, ConcatAttributesPending, FetchTypeAttributesStub, FetchPropertyGroupsStub, FetchAttributes, CloseHistories, SaveAsNative]
 
 MANIFEST = {
     "category": "proof",
